@@ -61,6 +61,11 @@ func (c *FnCtx) instr(ins ssa.Instruction) {
 		switch u := el.Underlying().(type) {
 		case *types.Struct:
 			c.zeroObject(c.vals[x], el)
+			if !x.Heap {
+				// a local whose address go/ssa found not to escape (it is only loaded from, stored to
+				// and its fields addressed): no other code can reach it, a havocing call leaves it alone
+				c.addPrivate(c.vals[x], el, x.Block())
+			}
 			// ghost state attached to a zero value of this type (e.g. an empty strings.Builder)
 			for _, zg := range c.g.specs.ZeroGhost {
 				if c.tt.typeName(el) == sanitize(zg[0]) {
@@ -84,6 +89,9 @@ func (c *FnCtx) instr(ins ssa.Instruction) {
 			n := c.freshComp(comp)
 			c.assume(eq(n, app("store", old, c.vals[x], c.zero(el))))
 			c.set(comp, n)
+			if !x.Heap {
+				c.private = append(c.private, privObj{c.vals[x], el, x.Block()})
+			}
 		}
 	case *ssa.FieldAddr:
 		st := x.X.Type().Underlying().(*types.Pointer).Elem()
@@ -109,11 +117,13 @@ func (c *FnCtx) instr(ins ssa.Instruction) {
 		case *types.Slice:
 			s := c.v(x.X)
 			o := c.safetyOb("index", x.Pos(), "index", stableName(x.X)+"["+stableName(x.Index)+"]")
+			o.Peer = o.Peer || c.peerTainted(x.Index, 0, map[ssa.Value]bool{})
 			c.assert(o, and(app("<=", "0", idx), app("<", idx, app("s-len", s))))
 			c.locs[x] = &Loc{Kind: "elem", Comp: c.elemComp(u.Elem()), Ref: app("s-ref", s), Idx: idxAt(app("s-off", s), idx), T: u.Elem(), Root: u.Elem()}
 		case *types.Pointer:
 			arr := u.Elem().Underlying().(*types.Array)
 			o := c.safetyOb("index", x.Pos(), "index", stableName(x.X)+"["+stableName(x.Index)+"]")
+			o.Peer = o.Peer || c.peerTainted(x.Index, 0, map[ssa.Value]bool{})
 			c.assert(o, and(app("<=", "0", idx), app("<", idx, num(arr.Len()))))
 			if bl, ok := c.locs[x.X]; ok {
 				nl := *bl
@@ -133,11 +143,13 @@ func (c *FnCtx) instr(ins ssa.Instruction) {
 		switch u := x.X.Type().Underlying().(type) {
 		case *types.Array:
 			o := c.safetyOb("index", x.Pos(), "index", stableName(x.X)+"["+stableName(x.Index)+"]")
+			o.Peer = o.Peer || c.peerTainted(x.Index, 0, map[ssa.Value]bool{})
 			c.assert(o, and(app("<=", "0", idx), app("<", idx, num(u.Len()))))
 			c.def(x, app("select", c.v(x.X), idx))
 		case *types.Basic: // string
 			s := c.v(x.X)
 			o := c.safetyOb("index", x.Pos(), "index", stableName(x.X)+"["+stableName(x.Index)+"]")
+			o.Peer = o.Peer || c.peerTainted(x.Index, 0, map[ssa.Value]bool{})
 			c.assert(o, and(app("<=", "0", idx), app("<", idx, app("str-len", s))))
 			c.def(x, app("select", app("str-arr", s), idx))
 			c.assume(and(app("<=", "0", c.vals[x]), app("<=", c.vals[x], "255")))
@@ -194,6 +206,7 @@ func (c *FnCtx) instr(ins ssa.Instruction) {
 	case *ssa.MakeSlice:
 		ln, cp := c.v(x.Len), c.v(x.Cap)
 		o := c.safetyOb("makeslice", x.Pos(), "make", "make")
+		o.Peer = o.Peer || c.peerTainted(x.Len, 0, map[ssa.Value]bool{}) || c.peerTainted(x.Cap, 0, map[ssa.Value]bool{})
 		c.assert(o, and(app("<=", "0", ln), app("<=", ln, cp)))
 		c.allocBound(x, cp)
 		ref := c.allocRef()
@@ -288,6 +301,7 @@ func (c *FnCtx) slice(x *ssa.Slice) {
 		hi := opt(x.High, app("s-len", s))
 		mx := opt(x.Max, app("s-cap", s))
 		o := c.safetyOb("slice", x.Pos(), "slice", stableName(x.X)+"[:]")
+		o.Peer = o.Peer || c.peerTainted(x.Low, 0, map[ssa.Value]bool{}) || c.peerTainted(x.High, 0, map[ssa.Value]bool{}) || c.peerTainted(x.Max, 0, map[ssa.Value]bool{})
 		c.assert(o, and(app("<=", "0", lo), app("<=", lo, hi), app("<=", hi, mx), app("<=", mx, app("s-cap", s))))
 		c.def(x, app("mk-slice", app("s-ref", s), plus(app("s-off", s), lo), minus(hi, lo), minus(mx, lo)))
 		if lo != "0" {
@@ -301,6 +315,7 @@ func (c *FnCtx) slice(x *ssa.Slice) {
 		lo := opt(x.Low, "0")
 		hi := opt(x.High, app("str-len", s))
 		o := c.safetyOb("slice", x.Pos(), "slice", stableName(x.X)+"[:]")
+		o.Peer = o.Peer || c.peerTainted(x.Low, 0, map[ssa.Value]bool{}) || c.peerTainted(x.High, 0, map[ssa.Value]bool{}) || c.peerTainted(x.Max, 0, map[ssa.Value]bool{})
 		c.assert(o, and(app("<=", "0", lo), app("<=", lo, hi), app("<=", hi, app("str-len", s))))
 		c.def(x, app("mk-str", app("arrshift", app("str-arr", s), lo), minus(hi, lo)))
 	case *types.Pointer:
@@ -310,6 +325,7 @@ func (c *FnCtx) slice(x *ssa.Slice) {
 		hi := opt(x.High, n)
 		mx := opt(x.Max, n)
 		o := c.safetyOb("slice", x.Pos(), "slice", stableName(x.X)+"[:]")
+		o.Peer = o.Peer || c.peerTainted(x.Low, 0, map[ssa.Value]bool{}) || c.peerTainted(x.High, 0, map[ssa.Value]bool{}) || c.peerTainted(x.Max, 0, map[ssa.Value]bool{})
 		c.assert(o, and(app("<=", "0", lo), app("<=", lo, hi), app("<=", hi, mx), app("<=", mx, n)))
 		if _, ok := c.locs[x.X]; ok {
 			// array embedded in another object: contents not tracked through the slice
@@ -331,6 +347,7 @@ func (c *FnCtx) lookup(x *ssa.Lookup) {
 		s := c.v(x.X)
 		idx := c.v(x.Index)
 		o := c.safetyOb("index", x.Pos(), "index", stableName(x.X)+"["+stableName(x.Index)+"]")
+		o.Peer = o.Peer || c.peerTainted(x.Index, 0, map[ssa.Value]bool{})
 		c.assert(o, and(app("<=", "0", idx), app("<", idx, app("str-len", s))))
 		c.def(x, app("select", app("str-arr", s), idx))
 		c.assume(and(app("<=", "0", c.vals[x]), app("<=", c.vals[x], "255")))
@@ -584,6 +601,7 @@ func (c *FnCtx) binop(x *ssa.BinOp) {
 		c.def(x, c.wrap(app("*", a, b), t))
 	case token.QUO:
 		o := c.safetyOb("div", x.Pos(), "div", stableName(x.X)+"/"+stableName(x.Y))
+		o.Peer = o.Peer || c.peerTainted(x.Y, 0, map[ssa.Value]bool{})
 		c.assert(o, not(eq(b, "0")))
 		if k, ok := constInt(x.Y); ok && k > 0 {
 			_, _, _, signed := intRange(t)
@@ -597,6 +615,7 @@ func (c *FnCtx) binop(x *ssa.BinOp) {
 		}
 	case token.REM:
 		o := c.safetyOb("div", x.Pos(), "div", stableName(x.X)+"%"+stableName(x.Y))
+		o.Peer = o.Peer || c.peerTainted(x.Y, 0, map[ssa.Value]bool{})
 		c.assert(o, not(eq(b, "0")))
 		if k, ok := constInt(x.Y); ok && k > 0 {
 			_, _, _, signed := intRange(t)
@@ -821,7 +840,9 @@ func frozenCellStore(a *ssa.Alloc) *ssa.Store {
 	if a.Referrers() == nil || !readOnly(*a.Referrers(), a, true) || st == nil {
 		return nil
 	}
-	if st.Block() != a.Parent().Blocks[0] {
+	// the store sits in the block that creates the cell (the declaration "x := e"): every other use of
+	// this cell value is either later in that block or in a block it dominates
+	if st.Block() != a.Block() {
 		return nil
 	}
 	return st
@@ -830,7 +851,7 @@ func frozenCellStore(a *ssa.Alloc) *ssa.Store {
 // storeBefore: the store (in the entry block) is executed before the load on every path.
 func storeBefore(st *ssa.Store, ld ssa.Instruction) bool {
 	if ld.Block() != st.Block() {
-		return true // the entry block dominates every other block
+		return st.Block().Dominates(ld.Block())
 	}
 	for _, i := range st.Block().Instrs {
 		if i == st {
@@ -859,7 +880,7 @@ func frozenBinding(fn *ssa.Function, idx int) (ssa.Value, bool) {
 			}
 			switch bv := mc.Bindings[idx].(type) {
 			case *ssa.Alloc:
-				if st := frozenCellStore(bv); st != nil {
+				if st := frozenCellStore(bv); st != nil && storeBefore(st, mc) {
 					return st.Val, true
 				}
 			case *ssa.FreeVar:
